@@ -19,6 +19,7 @@ TRUSTED = ["numpy mean/std/median/argsort(kind=stable)"]
 ASSUMPTIONS = ["standard error and weighted error estimates are not constrained for single-member bins",
                "weighted statistics are not constrained for bins whose weights sum to zero",
                "calls with a datum within rounding of a bin edge are skipped (edge-rounding)"]
+THOROUGH_ROUNDS = 6      # the thorough tier runs the generator over this many derived seeds
 REQUIRED = {"quick": {"C14.stats": 1200, "C14.nperbin": 500},
             "thorough": {"C14.stats": 12000, "C14.nperbin": 6000}}
 
